@@ -1662,6 +1662,13 @@ class Interp:
         # logging calls are dropped, arguments not evaluated (see DESIGN "what extraction drops")
         if isinstance(fn, ast.Attribute) and isinstance(fn.value, ast.Name) and fn.value.id in LOG_NAMES \
                 and fn.attr in ("debug", "info", "warning", "error", "exception", "critical", "log"):
+            # the logging call itself is dropped; its argument expressions are evaluated like CPython does
+            # (an f-string argument calls __str__/__repr__ eagerly and may raise)
+            for a in list(e.args) + [k.value for k in e.keywords]:
+                try:
+                    self.eval(a.value if isinstance(a, ast.Starred) else a, frame)
+                except Unsupported:
+                    self.log_args_skipped = getattr(self, "log_args_skipped", 0) + 1
             return None
         if isinstance(fn, ast.Name) and fn.id == "print" and "print" not in frame.locals:
             return None
